@@ -1864,6 +1864,54 @@ package graphql
 //@   loop 3 ensures def.Name != nil && has(fragmentNameUsed, def.Name.Value) && fragmentNameUsed[def.Name.Value] ==> calls("reportError") == atloop(3, calls("reportError"))
 //@   at call reportError: assert arg0 == context && len(arg2) == 1 && typeis(arg2[0], "*ast.FragmentDefinition") && as(arg2[0], "*ast.FragmentDefinition") == def
 
+// KnownDirectives: a directive is reported when the schema defines none of that name, when it sits at a place
+// that is no directive location, or when its definition does not list the location it sits at; otherwise it is
+// not reported; located at the directive. The location is decided by the kind of the node the directive is
+// applied to (operations by their operation type).
+//@ func getDirectiveLocationForASTPath
+//@   props C02
+//@   nosafety
+//@   opt invoke.GetKind=pure
+//@   assigns nothing
+//@   ensures len(ancestors) == 0 || isnil(ancestors[len(ancestors)-1]) ==> result == "" && calls("GetKind") == 0
+//@   at return: assert calls("GetKind") >= 1 && kind == kinds.Field ==> result == DirectiveLocationField
+//@   at return: assert calls("GetKind") >= 1 && kind == kinds.FragmentSpread ==> result == DirectiveLocationFragmentSpread
+//@   at return: assert calls("GetKind") >= 1 && kind == kinds.InlineFragment ==> result == DirectiveLocationInlineFragment
+//@   at return: assert calls("GetKind") >= 1 && kind == kinds.FragmentDefinition ==> result == DirectiveLocationFragmentDefinition
+//@   at return: assert calls("GetKind") >= 1 && kind == kinds.SchemaDefinition ==> result == DirectiveLocationSchema
+//@   at return: assert calls("GetKind") >= 1 && kind == kinds.ScalarDefinition ==> result == DirectiveLocationScalar
+//@   at return: assert calls("GetKind") >= 1 && kind == kinds.ObjectDefinition ==> result == DirectiveLocationObject
+//@   at return: assert calls("GetKind") >= 1 && kind == kinds.FieldDefinition ==> result == DirectiveLocationFieldDefinition
+//@   at return: assert calls("GetKind") >= 1 && kind == kinds.InterfaceDefinition ==> result == DirectiveLocationInterface
+//@   at return: assert calls("GetKind") >= 1 && kind == kinds.UnionDefinition ==> result == DirectiveLocationUnion
+//@   at return: assert calls("GetKind") >= 1 && kind == kinds.EnumDefinition ==> result == DirectiveLocationEnum
+//@   at return: assert calls("GetKind") >= 1 && kind == kinds.EnumValueDefinition ==> result == DirectiveLocationEnumValue
+//@   at return: assert calls("GetKind") >= 1 && kind == kinds.InputObjectDefinition ==> result == DirectiveLocationInputObject
+//@   at return: assert calls("GetKind") >= 1 && kind == kinds.OperationDefinition && typeis(appliedTo, "*ast.OperationDefinition") && as(appliedTo, "*ast.OperationDefinition").Operation == ast.OperationTypeQuery ==> result == DirectiveLocationQuery
+//@   at return: assert calls("GetKind") >= 1 && kind == kinds.OperationDefinition && typeis(appliedTo, "*ast.OperationDefinition") && as(appliedTo, "*ast.OperationDefinition").Operation == ast.OperationTypeMutation ==> result == DirectiveLocationMutation
+//@   at return: assert calls("GetKind") >= 1 && kind == kinds.OperationDefinition && typeis(appliedTo, "*ast.OperationDefinition") && as(appliedTo, "*ast.OperationDefinition").Operation == ast.OperationTypeSubscription ==> result == DirectiveLocationSubscription
+//@ func MisplaceDirectiveMessage
+//@   trusted
+//@   assigns nothing
+//@ func Schema.Directives
+//@   trusted
+//@   assigns nothing
+//@ func KnownDirectivesRule$1
+//@   props C02 C18
+//@   nosafety
+//@   ensures !typeis(p.Node, "*ast.Directive") ==> calls("reportError") == 0
+//@   loop 1 over lastresult("Directives")
+//@   loop 1 invariant (directiveDef == nil && (forall j in 0..rangeindex+1: lastresult("Directives")[j].Name != nodeName)) || (directiveDef != nil && directiveDef.Name == nodeName)
+//@   at call reportError#1: assert arg0 == context && directiveDef == nil && (forall j in 0..len(lastresult("Directives")): lastresult("Directives")[j].Name != nodeName) && len(arg2) == 1 && typeis(arg2[0], "*ast.Directive") && as(arg2[0], "*ast.Directive") == node
+//@   at call getDirectiveLocationForASTPath: assert arg0 == p.Ancestors && directiveDef != nil && directiveDef.Name == nodeName
+//@   loop 2 over directiveDef.Locations
+//@   loop 2 invariant !directiveHasLocation && (forall j in 0..rangeindex+1: directiveDef.Locations[j] != candidateLocation)
+//@   at call reportError#2: assert arg0 == context && len(candidateLocation) == 0 && len(arg2) == 1 && typeis(arg2[0], "*ast.Directive") && as(arg2[0], "*ast.Directive") == node
+//@   at call reportError#3: assert arg0 == context && len(candidateLocation) > 0 && (forall j in 0..len(directiveDef.Locations): directiveDef.Locations[j] != candidateLocation) && len(arg2) == 1 && typeis(arg2[0], "*ast.Directive") && as(arg2[0], "*ast.Directive") == node
+//@   ensures typeis(p.Node, "*ast.Directive") && calls("getDirectiveLocationForASTPath") == 0 ==> calls("reportError") == 1
+//@   ensures calls("getDirectiveLocationForASTPath") == 1 && len(lastresult("getDirectiveLocationForASTPath")) == 0 ==> calls("reportError") == 1
+//@   ensures calls("reportError") <= 1
+
 // VariablesAreInputTypes: a variable definition is reported exactly when its type is known and not an input
 // type; the error is located at the type reference.
 //@ func VariablesAreInputTypesRule$1
